@@ -211,7 +211,7 @@ def rule_transparent_call(ctx):
             ctx.instance("transparent_call:named-arm", sample={"pattern": pr, "guard": g})
             if "self.args.is_empty()" in g:
                 # a bare `{name}` with no arguments always refers to an outer binding: the arm is total
-                if not re.fullmatch(r'Some\(format_ident!\("\{(\w+)\}"\)\.into\(\)\)', body):
+                if not re.fullmatch(r'Some\(format_ident!\("\{\}",(\w+)\)\.into\(\)\)', body):
                     ctx.report(
                         "transparent:named-outer-binding",
                         ctx.where(f, arm["pat"]),
@@ -416,7 +416,7 @@ def rule_binder_align(ctx):
                     ctx.report(f"{rel}::{qual}:binder-source", where, f"binders in `{qual}` are not produced from `fields.iter().enumerate()` (got `{recv}` / {ins})", {})
                     continue
                 i, fv = m.group(1), m.group(2)
-                if f'format_ident!("_{{{i}}}")' not in body.replace(" ", "") and f'format_ident!("_{{}}",{i})' not in body.replace(" ", ""):
+                if f'format_ident!("_{{}}",{i})' not in body.replace(" ", ""):
                     ctx.report(f"{rel}::{qual}:binder-index", where, f"the positional binder in `{qual}` is not `_{{{i}}}` of the enumerate index", {"body": body[:200]})
                 if f"{fv}.ident.clone().unwrap_or_else(" not in body:
                     ctx.report(f"{rel}::{qual}:binder-name", where, f"the named binder in `{qual}` is not the field's own identifier", {})
@@ -461,7 +461,7 @@ def rule_binder_align(ctx):
     body = ";".join(A.render_stmt(s) for s in fn.block["stmts"])
     n += 1
     ctx.instance("FieldsExt::fmt_args_idents", sample=body)
-    if not re.search(r'self\.iter\(\)\.enumerate\(\)\.map\(\|\((\w+),(\w+)\)\|\2\.ident\.clone\(\)\.unwrap_or_else\(\|\|format_ident!\("_\{\1\}"\)\)\)', body):
+    if not re.search(r'self\.iter\(\)\.enumerate\(\)\.map\(\|\((\w+),(\w+)\)\|\2\.ident\.clone\(\)\.unwrap_or_else\(\|\|format_ident!\("_\{\}",\1\)\)\)', body):
         ctx.report("fmt_args_idents", ctx.where(fn.file, fn.node), "`FieldsExt::fmt_args_idents` no longer names fields `ident` / `_{i}` in declaration order: bounds and transparency look fields up under other names than the bodies bind", {"body": body})
     ctx.floor("binder closures", n, 5)
 
